@@ -198,8 +198,12 @@ def run_check(pid: str, modname: str, tier: str, level: str, argv=()):
                            "signatures": sorted({v.sig for v in vs})}
                           for k, vs in sorted(by_kind.items())], indent=1))
 
-    # replay files
+    # replay files (stale ones from earlier runs are removed)
     replay_dir = os.path.join(VERIF, "replays", pid)
+    if os.path.isdir(replay_dir) and not only:
+        for fn in os.listdir(replay_dir):
+            if fn.endswith(".json"):
+                os.unlink(os.path.join(replay_dir, fn))
     lines = []
     seen_sigs = set()
     for v in new_viol:
